@@ -348,7 +348,9 @@ func (sc *Scheduler) Signal(
 		defer func() {
 			done <- true
 		}()
-		for g.IsRunning() {
+		// wait for the processes, not only for the node states: a signalled
+		// node is canceled at once, its command may take (or refuse) to exit
+		for g.IsRunning() || g.hasLiveCommand() {
 			time.Sleep(sc.pause)
 		}
 	}
